@@ -21,6 +21,7 @@ verification inside kryptology, which is not modelled.
 -/
 import CharonV.Proofs.Frost
 import CharonV.Props.C08
+import CharonV.Proofs.TblsFr
 
 namespace CharonV.Frost
 
@@ -175,6 +176,47 @@ theorem round1_keys_spec (self : Nat) (vals targets : List Nat) (k : MsgKey) :
 
 end CharonV.FrostGlue
 
+/-! ### The executable scalar layer used by the correspondence driver (`Model/Fr.lean`) -/
+
+namespace CharonV.Frost
+
+open CharonV.Tbls
+
+/-- **Executable DKG recovery**: with dealers' coefficient lists `css` (each of length `≤ t`), node
+`j`'s secret share computed as in `dkg/frost.go` / kryptology round 2 — `Fr.sum` of the dealers'
+Horner evaluations at `j` — Lagrange recovery (`Fr.lagrangeAt0`, the function compared bit-for-bit
+with the implementation) over any `≥ t` distinct identifiers below `r` gives the sum of the
+dealers' constant terms. Hypothesis: `r` is prime. -/
+theorem exec_dkg_recovers_sum_of_secrets [Fact (Nat.Prime Fr.r)] (t : ℕ) (css : List (List ℕ))
+    (hcs : ∀ cs ∈ css, cs.length ≤ t) (ids : List ℕ) (hnd : ids.Nodup) (hlt : ∀ i ∈ ids, i < Fr.r)
+    (hlen : t ≤ ids.length) :
+    Fr.lagrangeAt0 (ids.map fun j => (j, Fr.sum (css.map fun cs => Fr.evalPoly cs j))) =
+      Fr.sum (css.map fun cs => Fr.evalPoly cs 0) := by
+  have hcast : ((Fr.lagrangeAt0 (ids.map fun j => (j, Fr.sum (css.map fun cs => Fr.evalPoly cs j))) : ℕ) :
+      ZMod Fr.r) = ((Fr.sum (css.map fun cs => Fr.evalPoly cs 0) : ℕ) : ZMod Fr.r) := by
+    rw [Fr.cast_lagrangeAt0 ids hnd]
+    have hfun : recover ids.toFinset
+          (fun j => ((Fr.sum (css.map fun cs => Fr.evalPoly cs j) : ℕ) : ZMod Fr.r)) =
+        recover ids.toFinset (share (Fr.polySum css)) := by
+      unfold recover share idF
+      refine Finset.sum_congr rfl fun j _ => ?_
+      beta_reduce
+      rw [Fr.cast_sum, Fr.polySum_eval, List.map_map]
+      congr 2
+      refine List.map_congr_left fun cs _ => ?_
+      simp [Fr.cast_evalPoly]
+    rw [hfun, recover_secret t (Fr.polySum css) (Fr.polySum_degree_lt t css hcs) ids.toFinset
+      (by rw [List.toFinset_card_of_nodup hnd]; exact hlen)
+      (idsDistinct_of_lt_char Fr.r _ fun k hk => hlt k (List.mem_toFinset.mp hk)),
+      Fr.cast_sum, Fr.polySum_eval, List.map_map]
+    congr 1
+    refine List.map_congr_left fun cs _ => ?_
+    simp [Fr.cast_evalPoly]
+  have h1 := (ZMod.natCast_eq_natCast_iff' _ _ _).mp hcast
+  rwa [Nat.mod_eq_of_lt (Fr.lagrangeAt0_lt _), Nat.mod_eq_of_lt (Fr.sum_lt _)] at h1
+
+end CharonV.Frost
+
 /-! ### Non-vacuity -/
 
 section Examples
@@ -200,5 +242,10 @@ example : pubShareAt [(⟨1, 3, 0⟩, "vk13"), (⟨0, 3, 0⟩, "vk03")] 0 3 = so
 nodes is order dependent. -/
 example : r2Share [(⟨0, 2, 1⟩, "a"), (⟨0, 2, 3⟩, "b")] 0 2 ≠
     r2Share [(⟨0, 2, 3⟩, "b"), (⟨0, 2, 1⟩, "a")] 0 2 := by decide
+
+/-- executable layer: dealers `3 + 2X` and `1 + X`, node shares 7, 10, 13; nodes {1,3} recover 4. -/
+example : CharonV.Fr.lagrangeAt0 ([1, 3].map fun j =>
+    (j, CharonV.Fr.sum ([[3, 2], [1, 1]].map fun cs => CharonV.Fr.evalPoly cs j)))
+    = 4 := by decide +kernel
 
 end Examples
